@@ -56,6 +56,7 @@ func VerifLegacy() {
 	ops.Fill(pv, "v")
 	rv := ops.ToRef(pv)
 	ref := refEncodeStruct(ops.St, rv, nil)
+	vrt.SetOwner("impl") // memory allocated by the calls below belongs to the implementation, not to the caller's value
 	if where == 0 {
 		legacyCall(which, x)
 	}
